@@ -25,7 +25,7 @@ pub static DEF: PropDef = PropDef {
     level: "exploration",
     engine: "compaction",
     rule: "one run = a real Compactor::run loop (check_interval 60 s, gc grace 0/5/60/300 s, retention 1/7/90 days) and a real QueryNode sharing one ChunkPinRegistry on one node, over the object-store catalog, on a generated dataset with mergeable recent L0 chunks plus chunks entirely older than, entirely newer than, straddling, and about to cross the retention cut-off; 2..6 queries issued at drawn instants (their chunk reads are scheduling points, so a GC pass can be interleaved with a query at any request), optional compactor crash+restart at a drawn request (pending deletions must survive), optional backward wall-clock jump (BoundedClock must mask it); 30..90 virtual minutes; distinct = distinct decision sequence; non-trivial = completed AND at least one data file was deleted or one retention removal happened",
-    quick_runs: 500,
+    quick_runs: 1500,
     thorough_runs: 12_000,
     run_cap_ms: 90_000,
     scen,
@@ -43,6 +43,7 @@ struct Del {
     path: String,
     t_ns: u64,
     pinned: bool,
+    pinned_when_pass_looked: bool,
 }
 
 fn scen(_spec: RunSpec) -> ScenFut {
@@ -122,10 +123,34 @@ fn scen(_spec: RunSpec) -> ScenFut {
         sim::log(format!("CONFIG grace={grace_s}s retention={retention_days}d crash_run={crash_run} slow_queries={slow_queries} clock_jump={jump} recent={n_recent} post_gates={post}"));
         // monitor: every DELETE at its effect instant
         let pins = ChunkPinRegistry::new();
+        // what was pinned when the current GC pass evaluated the pins: the pass's filter runs in the same
+        // synchronous stretch as the issue of its first DELETE (the first DELETE the compactor issues after
+        // any other request)
+        let pass_pins: Arc<Mutex<BTreeSet<String>>> = Arc::new(Mutex::new(BTreeSet::new()));
+        {
+            let pins = pins.clone();
+            let pass_pins = pass_pins.clone();
+            let last_was_delete = Arc::new(std::sync::atomic::AtomicBool::new(false));
+            let seed_paths: Vec<String> = seed_meta.keys().cloned().collect();
+            store::set_issue_observer(Box::new(move |node: u32, op: &str, _path: &str| {
+                if node != 0 {
+                    return;
+                }
+                let is_del = op == "DELETE";
+                let was_del = last_was_delete.swap(is_del, std::sync::atomic::Ordering::SeqCst);
+                if is_del && !was_del {
+                    let mut known: Vec<String> = store::with_events(|e| e.iter().filter(|x| x.op == "PUT" && x.ok && x.path.ends_with(".parquet")).map(|x| x.path.clone()).collect());
+                    known.extend(seed_paths.iter().cloned());
+                    let now_pinned: BTreeSet<String> = known.into_iter().filter(|p| pins.is_pinned(p)).collect();
+                    *pass_pins.lock().unwrap() = now_pinned;
+                }
+            }));
+        }
         let dels: Arc<Mutex<Vec<Del>>> = Arc::new(Mutex::new(Vec::new()));
         {
             let pins = pins.clone();
             let dels = dels.clone();
+            let pass_pins_obs = pass_pins.clone();
             store::set_delete_observer(Box::new(move |path: &str| {
                 if path.ends_with(".parquet") {
                     let q = RUNNING_QUERIES.with(|r| r.borrow().as_ref().map(|a| a.load(std::sync::atomic::Ordering::SeqCst)).unwrap_or(0));
@@ -135,7 +160,9 @@ fn scen(_spec: RunSpec) -> ScenFut {
                     if pins.pinned_count() > 0 {
                         sim::probe("delete-while-some-chunk-pinned");
                     }
-                    dels.lock().unwrap().push(Del { path: path.to_string(), t_ns: sim::now_ns(), pinned: pins.is_pinned(path) });
+                    let pinned = pins.is_pinned(path);
+                    let at_pass = pass_pins_obs.lock().unwrap().contains(path);
+                    dels.lock().unwrap().push(Del { path: path.to_string(), t_ns: sim::now_ns(), pinned, pinned_when_pass_looked: at_pass });
                 }
             }));
         }
@@ -272,11 +299,11 @@ fn scen(_spec: RunSpec) -> ScenFut {
         let grace_ns = grace_s * 1_000_000_000;
         for d in dels.iter() {
             if d.pinned {
-                // cause class from the configuration: with a grace period below the query node's 60 s catalog-cache
-                // TTL a query can still *select* (from its stale catalog view) and pin a chunk that is already
-                // scheduled for deletion, after the GC pass evaluated the pins; with grace >= 60 s a pinned chunk
-                // can only be one that was pinned before the pass looked
-                let class = if grace_s < 60 { "grace-below-catalog-cache-ttl" } else { "grace-at-least-catalog-cache-ttl" };
+                // cause class from observed facts: was the chunk already pinned when this GC pass evaluated the
+                // pins (then the pass ignored a pin), or was the pin taken afterwards (the pass checks pins once
+                // and then awaits each delete; a query working from a catalog view older than the grace period
+                // can still select and pin a chunk that is about to be deleted)
+                let class = if d.pinned_when_pass_looked { "pin-ignored-by-gc-pass" } else { "pinned-after-gc-evaluated-pins" };
                 sim::violation(format!("C09/deleted-while-pinned/{class}"), format!("{} was physically deleted at t=+{}s while a running query held it pinned (grace {grace_s}s)", short(&d.path), d.t_ns / 1_000_000_000));
             }
             if !ever_listed.contains(&d.path) {
